@@ -143,6 +143,10 @@ def gen_base(seed, pool=False, sizes="full"):
     if rng.random() < 0.05:
         t = rng.choice(targets)
         sandbox.append(workload.sb_entry(t + ".tmp", b"-- somebody else's temporary file\n"))
+    if backup and rng.random() < 0.2:
+        # a stale backup from an earlier run: --backup must still leave a copy of *this* original
+        t = rng.choice(targets)
+        sandbox.append(workload.sb_entry(t + ".bak", b"-- stale backup of an older version\n", rng.choice(["644", "444"])))
     if not dupfocus:
         rng.shuffle(names)
     argv += ["-f"] + names
